@@ -146,7 +146,7 @@ func (d *CSVDecoder) Decode(data []byte, _ ...any) (any, error) {
 	buffers.fieldIndexes = buffers.fieldIndexes[:0]
 parseField:
 	for {
-		if data[0] != quoteChar {
+		if len(data) == 0 || data[0] != quoteChar {
 			// Non-quoted string field
 			i := bytes.IndexByte(data, d.params.delimiter)
 			field := data
@@ -176,6 +176,11 @@ parseField:
 					// Hit next quote.
 					buffers.recordBuffer = append(buffers.recordBuffer, data[:i]...)
 					data = data[i+quoteLen:]
+					if len(data) == 0 {
+						// closing quote is the last byte (end of data without a newline).
+						buffers.fieldIndexes = append(buffers.fieldIndexes, len(buffers.recordBuffer))
+						break parseField
+					}
 					switch rn := data[0]; {
 					case rn == quoteChar:
 						// `""` sequence (append quote).
